@@ -1,2 +1,27 @@
-(* placeholder; theorems are added below *)
-From Hexital Require Import Base.Prelude.
+(* C08 - Indicators inside a Hexital behave exactly like the same indicators standalone. *)
+From Coq Require Import ZArith List String Bool.
+From Hexital Require Import Base.Prelude Base.Num Model.Manager Model.Candle Model.Readings Model.Engine
+  Model.Hexital Proofs.FrameProofs Proofs.HexitalProofs.
+Import ListNotations.
+
+(* A member that has a timeframe (manager) of its own: appending to the Hexital is exactly
+   appending to the standalone indicator with the same manager configuration, including
+   the exception raised if any. *)
+Theorem C08_member_on_its_own_manager_is_standalone :
+  forall (O : NumOps) (cfg : mcfg) (I : ind O) (key : string) (st : store O) (new : list (cd (payload O))),
+  let h := {| h_mgrs := [(key, (cfg, st))]; h_members := [{| m_ind := I; m_mgr := key |}] |} in
+  match alone_append O cfg I st new with
+  | Ok st' => hx_append O h new = Ok {| h_mgrs := [(key, (cfg, st'))]; h_members := h_members O h |}
+  | Err e => hx_append O h new = Err e
+  end.
+Proof. exact single_member_is_standalone. Qed.
+Print Assumptions C08_member_on_its_own_manager_is_standalone.
+
+(* Members that share a manager: whatever one member computes, the candles keep their
+   OHLCV and timestamps (the base candles are not altered by indicators) and the other
+   members' entries are untouched. *)
+Theorem C08_members_do_not_alter_shared_candles :
+  forall (O : NumOps) (k : kind O) (name : string) (rnd : Z) (st st' : store O),
+  calculate O (top O k name rnd) st = Ok st' -> frame O (tree_names O FUEL (top O k name rnd)) st st'.
+Proof. exact calculate_frame. Qed.
+Print Assumptions C08_members_do_not_alter_shared_candles.
